@@ -204,16 +204,16 @@ def record(job):
                 rc = {k: np.array([q[k] for q in rc]) for k in ("row", "col")}
             else:
                 row, col = (np.array([s[j] for s in sites], dtype=b["dtype"]) for j in (1, 2))
-                for _ in range(2):          # the caller's arrays are reused; what the first call returned is written into
+                for turn in range(2):       # the caller's arrays are reused; what the first call returned is written into
                     xy = neuropixel.rc2xy(row, col, version=ver)
                     x, y = xy["x"], xy["y"]
                     rc = neuropixel.xy2rc(x, y, version=ver)
-                    if _ == 0:
-                        scribble(dict(xy), dict(rc))
+                    if turn == 0:
+                        scribble(xy, rc)
                 xy = {"x": x, "y": y}       # xy2rc must have left them alone
-            for _ in range(2):
+            for turn in range(2):
                 ss, adc = neuropixel.adc_shifts(version=ver, nc=n)
-                if _ == 0:
+                if turn == 0:
                     scribble(ss, adc)
             th = {"shank": np.array([s[0] for s in sites]), "row": rc["row"], "col": rc["col"], "x": xy["x"], "y": xy["y"],
                   "adc": adc, "sample_shift": ss, "ind": np.arange(n), "flag": np.array(flags or [1] * n)}
@@ -244,17 +244,22 @@ def record(job):
                 f.write_text(text)
                 md = spikeglx.read_meta_data(f)
                 th, idx = spikeglx.geometry_from_meta(md, return_index=True)
-                add("dflt", "shank", False, -1, project(th, gen), [])
-                base = rec["obs"][-1]["hdr"]
-                scribble(th, idx)
-                for sort in (False, True):
-                    th = spikeglx.geometry_from_meta(md, sort=sort)
-                    again("dflt", "shank", False, -1, project(th, gen), base)
-                    scribble(th)
-                sr = spikeglx.Reader(f)
-                again("dflt", "shank", False, -1, project(sr.geometry, gen), base)
-                scribble(sr.geometry)
-                again("dflt", "shank", False, -1, project(spikeglx.read_geometry(f), gen), base)
+                base = project(th, gen)
+                # which of the two canonical NP2.4 layouts a four-shank probe without a table gets is the code's choice: the
+                # observation is judged in the trace of the layout it has the sites of (in the one-shank trace if of neither)
+                seen = {tuple(r[:3]) for r in base}
+                other = set(metagen.dense_sites(kind, 384, 5 - rec["dense"])) if kind == "NP2.4" else None
+                if (seen != other) if rec["dense"] == 1 else (seen == set(sites3)):
+                    add("dflt", "shank", False, -1, base, [])
+                    scribble(th, idx)
+                    for sort in (False, True):
+                        th = spikeglx.geometry_from_meta(md, sort=sort)
+                        again("dflt", "shank", False, -1, project(th, gen), base)
+                        scribble(th)
+                    sr = spikeglx.Reader(f)
+                    again("dflt", "shank", False, -1, project(sr.geometry, gen), base)
+                    scribble(sr.geometry)
+                    again("dflt", "shank", False, -1, project(spikeglx.read_geometry(f), gen), base)
             if job.get("flatbin"):      # a flat binary without metadata is taken for a dense NP1 recording
                 fb = d / f"flat{job['id']}" / "raw.bin"
                 fb.parent.mkdir(parents=True, exist_ok=True)
@@ -406,7 +411,7 @@ def full_jobs(ctx, rnd):
                      "splits": list(range(nsh)) if nsh > 1 else [], "dense": nsh, "again": True, "hdr": nsh == 1,
                      # every documented spelling of version x nshank (quick: the other main one and a drawn one)
                      "versions": [[v, nsh] for v in (alts[:1] + ([rnd.choice(alts[1:])] if alts[1:] else []) if ctx.quick else alts)],
-                     "nomap": nsh == 1, "flatbin": kind == "3B2"})
+                     "nomap": True, "flatbin": kind == "3B2"})
     return jobs
 
 
